@@ -29,4 +29,4 @@ for W in (3,4):
             if not (va&vb)<=r:
                 t[0]+=1; t[2]=t[2] or (str(a),str(b),sorted(r),sorted((va&vb)-r))
 for k,v in res.items(): print(k,"wrong",v[0],"of",v[1],"first",v[2])
-import sys; sys.exit(0)  # prints the counts; every "unsound"/"wrong" count is 0 on the repaired tree
+import sys; sys.exit(1 if any(v[0] for v in res.values()) else 0)
